@@ -151,11 +151,35 @@ class ActGen:
                     # keep interpolated values off exact .5 ties (device rounds half away from zero, host round() to even)
                     steps = r.choice([1, 5, 3, 7])
                     c = [x - (x % 1) for x in c]
-                self.emit(f"{name}.fade({self.arg(c[0])}, {self.arg(c[1])}, {self.arg(c[2])}, duration_ms={self.arg(dur)}, steps={self.arg(steps)})")
+                form = r.choice(["kw", "kw-swapped", "pos", "pos-dur-only"])
+                if form == "pos-dur-only" and "rgb-fade-tie" not in self.hazards and ok:
+                    # default steps=50: keep every channel delta even so that no interpolated value is an exact .5 tie
+                    # (device rounds half away from zero, host round() half to even - known finding KF-rgb-fade-tie-rounding)
+                    base = [2 * (x // 2) for x in (r.randint(0, 255), r.randint(0, 255), r.randint(0, 255))]
+                    self.emit(f"{name}.set_color({base[0]}, {base[1]}, {base[2]})")
+                    c = [2 * (int(x) // 2) for x in c]
+                if form == "kw":
+                    self.emit(f"{name}.fade({self.arg(c[0])}, {self.arg(c[1])}, {self.arg(c[2])}, duration_ms={self.arg(dur)}, steps={self.arg(steps)})")
+                elif form == "kw-swapped":
+                    self.emit(f"{name}.fade({self.arg(c[0])}, {self.arg(c[1])}, {self.arg(c[2])}, steps={self.arg(steps)}, duration_ms={self.arg(dur)})")
+                elif form == "pos":
+                    self.emit(f"{name}.fade({self.arg(c[0])}, {self.arg(c[1])}, {self.arg(c[2])}, {self.arg(dur)}, {self.arg(steps)})")
+                else:
+                    self.emit(f"{name}.fade({self.arg(c[0])}, {self.arg(c[1])}, {self.arg(c[2])}, {self.arg(dur)})")
+                self.features.add("rgb.fade:" + form)
             else:
                 t = r.choice([1, 2]) if ok else r.choice([-1, 0, 1])
                 dl = r.choice([0, 1, 7]) if ok else r.choice([-3, 4])
-                self.emit(f"{name}.blink({self.arg(c[0])}, {self.arg(c[1])}, {self.arg(c[2])}, times={self.arg(t)}, delay_ms={self.arg(dl)})")
+                form = r.choice(["kw", "pos", "pos-times-only", "kw-swapped"])
+                if form == "kw":
+                    self.emit(f"{name}.blink({self.arg(c[0])}, {self.arg(c[1])}, {self.arg(c[2])}, times={self.arg(t)}, delay_ms={self.arg(dl)})")
+                elif form == "kw-swapped":
+                    self.emit(f"{name}.blink({self.arg(c[0])}, {self.arg(c[1])}, {self.arg(c[2])}, delay_ms={self.arg(dl)}, times={self.arg(t)})")
+                elif form == "pos":
+                    self.emit(f"{name}.blink({self.arg(c[0])}, {self.arg(c[1])}, {self.arg(c[2])}, {self.arg(t)}, {self.arg(dl)})")
+                else:
+                    self.emit(f"{name}.blink({self.arg(c[0])}, {self.arg(c[1])}, {self.arg(c[2])}, {self.arg(t)})")
+                self.features.add("rgb.blink:" + form)
         elif kind == "servo":
             lo, hi, plo, phi = info["lo"], info["hi"], info["plo"], info["phi"]
             if r.random() < 0.6:
